@@ -30,7 +30,7 @@ def verdict(model: Model, cls: str, key: str, truth: Dict[str, Any]) -> Dict[str
     m = model.defines(o, key)
     pre = model.eff_pre(o, key)
     post = model.eff_post(o, key)
-    invs = model.invs_on(cls, "CALL") if model.wrapped_for_invariants(m) else []
+    invs = model.invs_around(cls, m)
 
     def t(cid: str, n: int = 0) -> bool:
         spec = truth.get(cid, True)
@@ -174,11 +174,10 @@ def truths(w, model: Model, cls: str, key: str, cap: int):
                     ids.append(c["id"])
     inv_ids = []
     occurrences = {}  # type: Dict[str, int]
-    if model.wrapped_for_invariants(m):
-        for i in model.invs_on(cls, "CALL"):
-            occurrences[i["id"]] = occurrences.get(i["id"], 0) + 1
-            if i["id"] not in inv_ids:
-                inv_ids.append(i["id"])
+    for i in model.invs_around(cls, m):
+        occurrences[i["id"]] = occurrences.get(i["id"], 0) + 1
+        if i["id"] not in inv_ids:
+            inv_ids.append(i["id"])
     for truth in gen.all_truth(ids + inv_ids, w.rng, cap):
         for iid in inv_ids:
             # invariants hold before the call (once per inheritance path); their after-value is what is enumerated
